@@ -466,7 +466,44 @@ def _rename_bound(n, idmap, namemap, ids):
             _rename_bound(v, idmap, namemap, ids)
 
 
-def unroll_literal_loops(fn_hir, limit=16):
+def _const_array_elems(path, F, like):
+    """literal element nodes for a const array of integers or of integer tuples (`[(i8, i8); 4]`), from its evaluated bytes"""
+    import re as _re
+    c = F.consts.get(path) if F is not None else None
+    if not c:
+        return None
+    m = _re.fullmatch(r"\[(.+); (\d+)\]", c["ty"].strip())
+    if not m:
+        return None
+    elem_ty, n = m.group(1).strip(), int(m.group(2))
+    W = {"i8": 1, "u8": 1, "i16": 2, "u16": 2, "i32": 4, "u32": 4, "i64": 8, "u64": 8, "usize": 8, "isize": 8}
+    comps = [elem_ty] if elem_ty in W else ([x.strip() for x in elem_ty[1:-1].split(",")] if elem_ty.startswith("(") and elem_ty.endswith(")") else None)
+    if not comps or any(x not in W for x in comps):
+        return None
+    try:
+        b = F.const_bytes(path)
+    except Exception:
+        return None
+    size = sum(W[x] for x in comps)
+    if len(comps) > 1:
+        # tuple layout: components of equal width only (no padding questions)
+        if len({W[x] for x in comps}) != 1:
+            return None
+    if len(b) != size * n:
+        return None
+    out = []
+    off = 0
+    for _ in range(n):
+        lits = []
+        for x in comps:
+            v = int.from_bytes(b[off:off + W[x]], "little", signed=x.startswith("i"))
+            off += W[x]
+            lits.append({"k": "Lit", "lk": "int", "v": v, "ty": x, "sp": like.get("sp")})
+        out.append(lits[0] if len(comps) == 1 and not elem_ty.startswith("(") else {"k": "Tup", "elems": lits, "ty": elem_ty, "sp": like.get("sp")})
+    return out
+
+
+def unroll_literal_loops(fn_hir, limit=16, F=None):
     """Deep copy of fn_hir in which every `for PAT in ARRAY { body }` whose ARRAY is an array literal (directly, or a
     single-assignment local initialised with one) of at most `limit` elements and whose body contains no break/continue
     is replaced by `{ { let PAT = e1; body } { let PAT = e2; body } ... }` with fresh local ids per copy."""
@@ -482,6 +519,10 @@ def unroll_literal_loops(fn_hir, limit=16):
             e0 = hir.strip(env.defs[e0["to"]["id"]])
         if e0.get("k") == "Array" and 0 < len(e0["elems"]) <= limit:
             return e0["elems"]
+        if e0.get("k") == "Path" and e0["to"].get("res") == "def" and "Const" in str(e0["to"].get("dk", "")):
+            el = _const_array_elems(e0["to"]["path"], F, e0)
+            if el is not None and 0 < len(el) <= limit:
+                return el
         return None
 
     def rewrite(n):
@@ -524,10 +565,9 @@ def unroll_literal_loops(fn_hir, limit=16):
             if len(some) != 1:
                 return None
             pat, body = payload(some[0]["pat"]), some[0]["body"]
-            for c, _ in hir.walk(body):
-                if c.get("k") == "Continue" or (c.get("k") == "Break" and "ForLoop" not in str(c.get("mac", ""))):
-                    return None
-                if c.get("k") == "Ret":
+            for c, anc_ in hir.walk(body):
+                nested = any(a_.get("k") == "Loop" for a_ in anc_)
+                if not nested and (c.get("k") == "Continue" or (c.get("k") == "Break" and "ForLoop" not in str(c.get("mac", "")))):
                     return None
             copies = []
             for el in elems:
